@@ -10,7 +10,7 @@ ID = "C15"
 LEVEL = "fault_enumeration"
 RULE = ("trees {three classes incl. a 131073-byte class that reaches the suffix and content stages under the SSD pin, nested "
         "directories, a hard link; the same with file/directory symlinks and -L; a tree on ext4 under the HDD pin so that "
-        "FIEMAP is issued; a small tree under the 'unknown' pin; a tree spread over three input paths, given as arguments and through --stdin, where every call on an input path after the up-front existence check is a fault point; the small tree also under --transform (pipe and $IN)}, `group -t 1` (two of the trees also with --unique, "
+        "FIEMAP is issued; a small tree under the 'unknown' pin; a tree spread over three input paths, given as arguments and through --stdin, where every call on an input path after the up-front existence check is a fault point; the small tree also under --transform (pipe and $IN), and with a transform program that itself fails for one file (exit status 1 after partial output), run twice with and without --cache}, `group -t 1` (two of the trees also with --unique, "
         "--rf-under 3 and --rf-over 0); the read-side call history (stat, lstat, "
         "open, every read, opendir, every readdir, readlink, realpath, FIEMAP ioctl) is recorded twice (must be "
         "identical); then EVERY event k fails with EACCES, EIO and ENOENT, every open also together with the call that follows it (the O_NOATIME attempt and its fall-back: the entry vanished) (thorough: also every pair k1<k2 for the small "
@@ -69,6 +69,11 @@ def cases(tier, seed):
     for tr in (["--transform", "cat"], ["--transform", "cat $IN"]):
         for flt in ([], ["--rf-over", "0"]):
             out.append({"tree": "small_unknown", "pairs": False, "tier": tier, "filter": flt, "transform": tr})
+    # the transform program itself fails for one file (after two bytes of output), with and without the cache, twice
+    for mode in ("pipe", "in"):
+        for cache in (False, True):
+            for flt in ([], ["--rf-over", "0"], ["--unique"]):
+                out.append({"tree": "small_unknown", "kind": "transform_fails", "tier": tier, "filter": flt, "mode": mode, "cache": cache})
     for stdin in (False, True):
         for flt in ([], ["--rf-over", "0"]):
             out.append({"tree": "three_roots", "pairs": False, "tier": tier, "stdin": stdin, "filter": flt})
@@ -78,7 +83,52 @@ def cases(tier, seed):
     return out
 
 
+def evaluate_transform_fails(case):
+    """`group --transform 'fcv-tr failon'`: the program exits with status 1 (after two bytes of output) for the file
+    whose content starts with 'diff' and copies every other file. Run twice (the second time the cache is warm): both
+    times the report must be that of the tree without the failing file, with a warning."""
+    entries, gargs, disk, ext4 = TREES[case["tree"]]
+    viol = []
+    flt = case["filter"]
+    with C.Scratch() as sc:
+        C.make_tree(sc.tree, entries)
+        failing = [sc.path(e["p"]).decode() for e in entries if e["k"] == "file" and C.content(e["c"]).startswith(b"diff")]
+        if len(failing) != 1:
+            raise C.MachineryError("expected exactly one file for which the transform fails")
+        files = {}
+        for e in entries:
+            if e["k"] == "file":
+                p = sc.path(e["p"]).decode()
+                st = os.stat(p)
+                files[p] = {"dev": st.st_dev, "ino": st.st_ino, "len": st.st_size, "data": C.read_file(p), "root": 0}
+        ref = {"files": {p: f for p, f in files.items() if p not in failing}, "roots": [os.path.join(sc.tree, "r")]}
+        exp = set(e["paths"] for e in G.expected_groups(ref, {"args": ["--min", "0"] + flt}) if e["reported"])
+        tr = "fcv-tr failon" + (" $IN" if case["mode"] == "in" else "")
+        args = ["group", "-t", "1", "--min", "0", "-f", "json", "--transform", tr] + flt + (["--cache"] if case["cache"] else []) + ["r"]
+        env = {"FCLONES_VERIF_DISK_KIND": disk, "FCV_TR_FAIL_PREFIX": "diff"}
+        feat = {"call": "transform_program", "errno": "exit_status_1", "transform": True, "cache": case["cache"],
+                "filter": " ".join(flt) or "default", "stage": "hash_or_stat", "second_fault": False, "on_input_path": False}
+        for ri in range(2):
+            rc, out, err, to = C.fclones(args, sc, env_extra=env)
+            errs = err.decode("utf-8", "replace")
+            ctx = "`fclones %s` run %d (transform fails for %s)" % (" ".join(args), ri + 1, failing[0])
+            if to or rc != 0:
+                viol.append(dict(feat, kind="run_failed", run=ri, detail="%s: rc=%s %s" % (ctx, rc, errs[-300:])))
+                continue
+            got = set(frozenset(os.path.normpath(C.u(p)) for p in g["paths"]) for g in C.parse_json_report(out).groups)
+            if got != exp:
+                viol.append(dict(feat, kind="other_files_affected", run=ri,
+                                 detail="%s: groups %s, expected %s" % (ctx, sorted(map(sorted, got)), sorted(map(sorted, exp)))))
+            elif " warn:" not in errs:
+                viol.append(dict(feat, kind="no_warning", run=ri, detail="%s: the failing file is left out, but no warning was logged" % ctx))
+    return {"violations": viol, "evaluations": 2, "nontrivial": [[case["tree"], "transform_fails", case["mode"], case["cache"], " ".join(flt)]],
+            "outcome": "explored", "counters": {"transform_failure_runs": 2},
+            "sample": {"tree": case["tree"], "args": args}}
+
+
 def evaluate(case):
+    if case.get("kind") == "transform_fails":
+        return evaluate_transform_fails(case)
     entries, gargs, disk, ext4 = TREES[case["tree"]]
     viol = []
     reached = []
